@@ -29,5 +29,6 @@ size_t strlcpy(char *dst, const char *src, size_t size) {
 
 	*dst = '\0';
 
-	return s - src;
+	/* on truncation the rest of src still counts: the result is strlen(src) */
+	return (s - src) + strlen(s);
 }
